@@ -46,7 +46,7 @@ func (l *logSink) count(sub string) int {
 	defer l.mu.Unlock()
 	n := 0
 	for _, s := range l.lines {
-		if strings.Contains(s, sub) {
+		if strings.Contains(strings.ToLower(s), strings.ToLower(sub)) {
 			n++
 		}
 	}
@@ -58,7 +58,7 @@ func (l *logSink) matching(sub string) []string {
 	defer l.mu.Unlock()
 	var out []string
 	for _, s := range l.lines {
-		if strings.Contains(s, sub) {
+		if strings.Contains(strings.ToLower(s), strings.ToLower(sub)) {
 			out = append(out, strings.TrimSpace(s))
 		}
 	}
